@@ -69,6 +69,8 @@ func compileMsgs(p *ref.Program, reverseFiles bool) ([]msgInfo, error) {
 
 // ---- the independent naming rule -------------------------------------------------------------
 
+// c10BaseNames: base names written out by hand for the original pool; TestC10BaseNameModel keeps the
+// general model (ref.ExprBaseName / ref.TagBaseName) anchored on them.
 var c10BaseNames = map[string]string{
 	"$x": "X", "$x_1": "X_1", "$x_2": "X_2", "$a.x": "X", "$b.x": "X", "$a.y": "Y", "$userName": "USER_NAME", "$n2x": "N_2_X", "$num": "NUM", "$cnt.num": "NUM",
 	`<a href="u">`: "START_LINK", `<a href="other">`: "START_LINK", "</a>": "END_LINK", "<b>": "START_BOLD", "</b>": "END_BOLD", "<br/>": "BREAK", "<br>": "START_BREAK",
@@ -93,18 +95,11 @@ func refPlaceholders(body []ref.Cmd) (order []phRef, err error) {
 			switch c.K {
 			case "text":
 				for _, tag := range tagRe.FindAllString(ref.NormalizeText(c.Text), -1) {
-					b, okb := c10BaseNames[tag]
-					if !okb {
-						err = fmt.Errorf("no base name for tag %q", tag)
-					}
-					order = append(order, phRef{"tag:" + tag, b})
+					order = append(order, phRef{"tag:" + tag, ref.TagBaseName(tag)})
 				}
 			case "print":
 				src := gen.PrintExpr(c.Expr)
-				b, okb := c10BaseNames[src]
-				if !okb {
-					b = "XXX"
-				}
+				b := ref.ExprBaseName(c.Expr, "XXX")
 				key := "print:" + src
 				for _, d := range c.Directives {
 					key += "|" + d.Name
@@ -112,11 +107,7 @@ func refPlaceholders(body []ref.Cmd) (order []phRef, err error) {
 				order = append(order, phRef{key, b})
 			case "plural":
 				src := gen.PrintExpr(c.Expr)
-				b, okb := c10BaseNames[src]
-				if !okb {
-					b = "NUM"
-				}
-				order = append(order, phRef{"plural:" + src, b})
+				order = append(order, phRef{"plural:" + src, ref.ExprBaseName(c.Expr, "NUM")})
 				for _, br := range c.Branches {
 					queue = append(queue, br.Body)
 				}
@@ -452,6 +443,30 @@ func TestC10(t *testing.T) {
 	c10rec = newRecorder("C10x")
 	defer c10rec.flush()
 	runProp(t, "C10", genC10, checkC10)
+}
+
+func TestC10BaseNameModel(t *testing.T) {
+	for src, want := range c10BaseNames {
+		var got string
+		if strings.HasPrefix(src, "<") {
+			got = ref.TagBaseName(src)
+		} else {
+			parts := strings.Split(strings.TrimPrefix(src, "$"), ".")
+			e := &ref.Expr{Op: "ref", Name: parts[0]}
+			for _, k := range parts[1:] {
+				e.Access = append(e.Access, ref.Access{Kind: "key", Key: k})
+			}
+			got = ref.ExprBaseName(e, "XXX")
+		}
+		if got != want {
+			t.Errorf("base name of %s: model says %q, the hand-written table %q", src, got, want)
+		}
+	}
+	for id, want := range map[string]string{"toDoItem": "TO_DO_ITEM", "userIdNo": "USER_ID_NO", "aBcDe": "A_BC_DE", "URLPath": "URL_PATH", "_x_": "X", "x__3": "X_3", "x12": "X_12", "n2x": "N_2_X", "ABC": "ABC", "aB": "AB", "aBc": "A_BC"} {
+		if got := ref.UpperUnderscore(id); got != want {
+			t.Errorf("UpperUnderscore(%q) = %q, want %q", id, got, want)
+		}
+	}
 }
 
 func TestC10Child(t *testing.T) {
